@@ -111,6 +111,25 @@ fn definitions() -> Vec<(&'static str, Vec<Stmt>, usize, bool)> {
             2,
             false,
         ),
+        // FNA and FNA$ are different functions: their parameters of the same name are different variables
+        (
+            "same-name-other-type-same-parameter-name",
+            vec![
+                Stmt::Def("FNA$".into(), vec!["X".into()], Expr::Call("STRING$".into(), vec![x(), strlit("*")])),
+                Stmt::Def("FNA".into(), vec!["X".into()], bin(BinOp::Add, Expr::Call("LEN".into(), vec![f("FNA$", vec![bin(BinOp::Add, x(), int(1))])]), x())),
+            ],
+            1,
+            false,
+        ),
+        (
+            "same-name-integer-and-default-type",
+            vec![
+                Stmt::Def("FNA%".into(), vec!["X".into()], bin(BinOp::Mul, x(), int(10))),
+                Stmt::Def("FNA".into(), vec!["X".into()], bin(BinOp::Add, f("FNA%", vec![bin(BinOp::Add, x(), int(1))]), x())),
+            ],
+            1,
+            false,
+        ),
         (
             "three-parameters-into-builtin",
             vec![Stmt::Def(
@@ -260,6 +279,39 @@ impl Sweep for Functions {
             judge("direct-DEF", &Prog::default(), &[vec![Stmt::Def("FNA".into(), vec!["X".into()], var("X"))], vec![p(f("FNA", vec![int(1)]))]], ctx);
             let prog = Prog { lines: vec![Line { num: 10, stmts: vec![Stmt::Def("FNA".into(), vec!["X".into()], bin(BinOp::Mul, var("X"), int(2)))] }] };
             judge("direct-DEF", &prog, &[run.clone(), vec![Stmt::Def("FNA".into(), vec!["X".into()], var("X"))], vec![p(f("FNA", vec![int(4)]))]], ctx);
+            // an edit of the listing forgets every definition: a call from direct mode before the next RUN is undefined
+            for edit in ["10", "5 REM", "10 DEF FNA(X)=X+1", "DELETE 10", "DELETE 30", "RENUM", "40 REM", "20", "25 PRINT 1"] {
+                let lines = ["10 DEF FNA(X)=X+1", "20 DEF FNB(X)=X*100", "30 PRINT FNA(1);FNB(1);"];
+                if ctx.begin(&format!("{} // RUN // {} // PRINT FNA(2) // PRINT FNB(2)", lines.join(" / "), edit)) {
+                    let r = guard(|| {
+                        let mut s = Session::new();
+                        for l in lines {
+                            s.enter(l);
+                        }
+                        s.take();
+                        s.enter("RUN");
+                        let ran = render_codes(&s.take());
+                        s.enter(edit);
+                        s.take();
+                        s.enter("PRINT FNA(2)");
+                        let a = render_codes(&s.take());
+                        s.enter("PRINT FNB(2)");
+                        let b = render_codes(&s.take());
+                        (ran, a, b)
+                    });
+                    match r {
+                        Err(pn) => ctx.violation("call-after-edit/panic", pn),
+                        Ok((ran, a, b)) => {
+                            ctx.nontrivial(hash64(&(edit, &ran)));
+                            if !ran.starts_with(" 2  100 ") {
+                                ctx.violation("call-after-edit/harness", format!("the program did not run: {:?}", ran));
+                            } else if !a.contains("UNDEFINED USER FUNCTION") || !b.contains("UNDEFINED USER FUNCTION") {
+                                ctx.violation("call-after-edit/stale-definition-used", format!("after {:?}: PRINT FNA(2) gave {:?}, PRINT FNB(2) gave {:?}", edit, a, b));
+                            }
+                        }
+                    }
+                }
+            }
             // runaway recursion: OUT OF MEMORY, and the session stays usable
             for body in ["FNA(X-1)+1", "FNB(X)", "1+FNA(X)*2"] {
                 let lines = vec![format!("10 DEF FNA(X)={}", body), "20 DEF FNB(X)=FNA(X)".to_string(), "30 PRINT FNA(3)".to_string()];
